@@ -133,6 +133,16 @@ pub fn run(cx: &mut Ctx) {
             c.eval(1);
         });
     }
+    cx.case("expansion_after_empty_input", |c| {
+        // the size bounds hold for every call, whatever was compressed before (incl. the empty input)
+        let _ = compress(c, Fmt::Lz13, &[]);
+        check_expansion(c, Fmt::Lz13, b"0123456789abcdef", "16 distinct bytes after the empty input");
+        let _ = compress(c, Fmt::Lz10, &[]);
+        check_expansion(c, Fmt::Lz10, b"0123456789abcdef", "16 distinct bytes after the empty input");
+        check_expansion(c, Fmt::Lz10, &[], "the empty input");
+        let _ = compress(c, Fmt::Lz13, &[]);
+        check_expansion(c, Fmt::Lz13, b"01234567", "8 distinct bytes after the empty input");
+    });
     if !miri {
         for k in 4..=13 {
             cx.case("expansion_de_bruijn", |c| {
